@@ -194,3 +194,55 @@ Proof.
   - intros p [].
   - constructor.
 Qed.
+
+(** * Claims in flight are per output *)
+
+Lemma claiming_from_spec c st hs : forall k i,
+  In i (claiming_from c st k hs) <->
+  exists h, nth_error hs (i - k) = Some h /\ (k <= i)%nat /\ claiming_b c st i h = true.
+Proof.
+  induction hs as [|h t IH]; intros k i; cbn [claiming_from].
+  - split; [intros [] | intros (h & Hn & _); destruct (i - k)%nat; discriminate].
+  - rewrite in_app_iff, IH. split.
+    + intros [Hin | (h' & Hn & Hk & Hc)].
+      * destruct (claiming_b c st k h) eqn:E; [|destruct Hin]. destruct Hin as [<- | []].
+        exists h. rewrite Nat.sub_diag. repeat split; [lia | exact E].
+      * exists h'. replace (i - k)%nat with (S (i - S k)) by lia. repeat split; [exact Hn | lia | exact Hc].
+    + intros (h' & Hn & Hk & Hc). destruct (Nat.eq_dec i k) as [-> | Hne].
+      * rewrite Nat.sub_diag in Hn. injection Hn as <-. left. rewrite Hc. left. reflexivity.
+      * right. exists h'. replace (i - k)%nat with (S (i - S k)) in Hn by lia. repeat split; [exact Hn | lia | exact Hc].
+Qed.
+
+Lemma claiming_from_nodup c st hs : forall k, NoDup (claiming_from c st k hs).
+Proof.
+  induction hs as [|h t IH]; intros k; cbn [claiming_from]; [constructor|].
+  destruct (claiming_b c st k h); cbn [app]; [|apply IH]. constructor; [|apply IH].
+  intros Hin. apply claiming_from_spec in Hin as (_ & _ & Hk & _). lia.
+Qed.
+
+(** An output is being claimed iff it is the output of an HTLC of the commitment, no spend of it has
+    been seen, a claim request exists for it and is released -- whatever its payment hash is and
+    however many other HTLCs share that hash; and no output is listed twice. *)
+Lemma claiming_spec c st i :
+  In i (claiming c st) <->
+  exists h, nth_error (c_htlcs c) i = Some h /\ spent_b st i = false /\
+            exists k, claim_request h (knows st i) = Some k /\ claim_released (c_side c) k h (best st) = true.
+Proof.
+  unfold claiming. rewrite claiming_from_spec. rewrite Nat.sub_0_r. unfold claiming_b. split.
+  - intros (h & Hn & _ & Hc). exists h. split; [exact Hn|]. apply andb_true_iff in Hc as (Hs & Hr).
+    apply negb_true_iff in Hs. split; [exact Hs|]. destruct (claim_request h (knows st i)) as [k|]; [|discriminate].
+    exists k. split; [reflexivity | exact Hr].
+  - intros (h & Hn & Hs & k & Hq & Hr). exists h. split; [exact Hn|]. split; [lia|]. rewrite Hs, Hq. exact Hr.
+Qed.
+
+Lemma claiming_nodup c st : NoDup (claiming c st).
+Proof. apply claiming_from_nodup. Qed.
+
+Lemma indices_with_hash_in H hs : forall k i h,
+  nth_error hs (i - k) = Some h -> (k <= i)%nat -> h_hash h = H -> In i (indices_with_hash H k hs).
+Proof.
+  induction hs as [|x t IH]; intros k i h Hn Hk Hh; [destruct (i - k)%nat; discriminate|].
+  cbn [indices_with_hash]. apply in_or_app. destruct (Nat.eq_dec i k) as [-> | Hne].
+  - rewrite Nat.sub_diag in Hn. injection Hn as ->. left. rewrite Hh, Z.eqb_refl. left. reflexivity.
+  - right. apply (IH (S k) i h); [replace (i - k)%nat with (S (i - S k)) in Hn by lia; exact Hn | lia | exact Hh].
+Qed.
